@@ -68,8 +68,11 @@ public:
     char c = s_->script.empty() ? 's' : s_->script[s_->n_export % s_->script.size()];
     s_->n_export++;
     s_->inflight--;
-    detsched::note(std::string("export-end ") + (c == 'f' ? "fail" : "ok"));
-    return c == 'f' ? sdkc::ExportResult::kFailure : sdkc::ExportResult::kSuccess;
+    detsched::note(std::string("export-end ") + (c == 's' ? "ok" : "fail"));
+    return c == 'f' ? sdkc::ExportResult::kFailure
+         : c == 'u' ? sdkc::ExportResult::kFailureFull
+         : c == 'v' ? sdkc::ExportResult::kFailureInvalidArgument
+                    : sdkc::ExportResult::kSuccess;
   }
   sdkm::AggregationTemporality GetAggregationTemporality(sdkm::InstrumentType) const noexcept override
   {
@@ -118,7 +121,7 @@ static std::string handle(const std::vector<std::string> &t)
   Shared sh;
   for (char c : xs)
   {
-    if (c == 's' || c == 'f') sh.script.push_back(c);
+    if (c == 's' || c == 'f' || c == 'u' || c == 'v') sh.script.push_back(c);
     else if (c == 'F') sh.ff_fails = true;
     else if (c == 'S') sh.sd_fails = true;
     else return "bad-op";
